@@ -495,6 +495,17 @@ def streams(ctx, rng, scale):
     rngb = vlib.rng_for(ctx.seed, "c06/bson-model")
     lbs = gen_bson_core_lines(rngb, 1000 * scale)
     ctx.correspond("bson-encoder-model", HARNESS, lbs, bson_model_oracle, nontrivial, compare=compare_bytes, model_lines=[model_line(l) for l in lbs])
+    # unsigned 64-bit EVENTS (visit_uint64 has its own width ladder in every encoder; values read from the wire syntax are int64 up to 2^63-1):
+    # every non-negative integer edge announced as uint64, in an array and as a member value, against the event-level encoder models
+    lu = []
+    for fmt in ("cbor", "msgpack", "ubjson", "bson"):
+        opt = "p0" if fmt == "cbor" else "-"
+        for i in [e for e in INT_EDGES if e >= 0] + [2 ** 63 - 1, 2 ** 63, 2 ** 64 - 1]:
+            lu.append("bin events %s %s BA1 U%d EA" % (fmt, opt, i))
+            lu.append("bin events %s %s BO1 K6b U%d EO" % (fmt, opt, i))
+    lu = list(dict.fromkeys(lu))
+    ctx.correspond("unsigned-integer-events", HARNESS, lu, unsigned_events_oracle, lambda l, i: l, compare=compare_bytes,
+                   model_lines=["bin mev %s %s" % (l.split()[2], " ".join(l.split()[4:])) for l in lu])
     lbf = gen_bigfloat_lines(rng, 400 * scale)
     ctx.correspond("cbor-bigfloat-model", HARNESS, lbf, bigfloat_oracle, lambda l, i: l if len(l) > 60 else None, compare=compare_bigfloat,
                    model_lines=[bigfloat_model_line(l) for l in lbf])
@@ -505,6 +516,20 @@ def streams(ctx, rng, scale):
         ctx.correspond(fmt + "-roundtrip", HARNESS, ls, oracle, nontrivial, want_model=False)
         lb = gen_length_boundaries(rng, fmt, big_containers=(ctx.tier == "thorough"))
         ctx.correspond(fmt + "-length-boundaries", HARNESS, lb, oracle, nontrivial, want_model=False)
+
+
+def unsigned_events_oracle(line, impl, model, ref=None):
+    """judged without the model: the encoder's own decoder must read the number back (or the encoder must have refused it)"""
+    t = line.split()
+    n = int(t[-2][1:])
+    if impl.startswith("err"):
+        if t[2] in ("ubjson", "bson") and n >= 2 ** 63:
+            return None
+        return "the %s encoder refused the unsigned integer %d" % (t[2], n)
+    back = impl.split(" | ")[-1]
+    if ("i%d" % n) not in back.split():
+        return "the unsigned integer %d written by the %s encoder reads back as: %s" % (n, t[2], back[:80])
+    return None
 
 
 def run(ctx):
